@@ -286,6 +286,35 @@ def check(ctx):
             else:
                 r3.ok("%s: type_mappings assigned as a whole" % short_path(fid))
     r3.require_floor(3, "mapping lookups")
+    # the resolver's table is keyed the way the configuration is: when the (rust name -> ts name) pairs of type_mappings are copied into the
+    # type resolver, the key of the pair goes to the key position (swapped, the table is keyed by the TypeScript targets and a mapped Rust name
+    # is not recognised by parse_type_structure)
+    for fid in sorted(reach):
+        f = P.fns.get(fid)
+        if f is None:
+            continue
+        for c in f.calls:
+            if c.bb not in f.reach_blocks or short_path(c.best) != "TypeResolver::add_type_mapping" or len(c.args) < 3:
+                continue
+            pos = []
+            for a in c.args[1:3]:
+                o = f.origin(a)
+                while o[0] == "call" and o[1].name in ("clone", "to_string", "to_owned", "as_str", "deref", "into", "from", "as_ref") and o[1].args:
+                    o = f.origin(o[1].args[0])
+                idx = None
+                while o[0] == "proj":
+                    for pj in o[2]:
+                        m_ = re.fullmatch(r"\(tuple\)\.(\d)", pj) if isinstance(pj, str) else None
+                        if m_:
+                            idx = int(m_.group(1))
+                    o = o[1]
+                pos.append((idx, o[1].bb if o[0] == "call" and o[1].name == "next" else None))
+            if all(p_[0] is not None and p_[1] is not None for p_ in pos) and pos[0][1] == pos[1][1]:
+                if (pos[0][0], pos[1][0]) == (0, 1):
+                    r3.ok("%s: add_type_mapping(key, value) of each configured pair" % short_path(fid))
+                else:
+                    r3.bad(V(r3.id, fid, "mapping-pair-swapped", "%s hands add_type_mapping the pair's value as the Rust name and its key as the TypeScript name: "
+                             "the resolver's table is keyed by the wrong side" % short_path(fid), c.file, c.line))
     rules.append(r3)
 
     # ---------------------------------------------------------------- D5
